@@ -799,4 +799,5 @@ ASSUMPTIONS = [
 ]
 STUB_NOTE = ("; the standard library's random generator is replaced by a scheduler-controlled stand-in during seam-"
              "enabled shuffle events (the library code itself runs unmodified)")
+STATE_MEASURE = 'canonical form of the reference model of every live object after the event'
 FAMILY_STARTS = [0]
